@@ -375,7 +375,6 @@ func firstWord(s string) string {
 // round's own measurements: every source of a side answered successfully before the
 // timeout (so no slot of the result slice carries a value of an earlier round).
 func c01Structure(r *ev.Run, id string, sc *c01Scenario, round int, corr int64, refMax, peerMax float64, w func(map[string]any) map[string]any) {
-	const lim = int64(1) << 62
 	// the values of a round are those of the sources that answered successfully before the timeout in
 	// that round; a source that fails, is late or never answers contributes nothing (what it reported in
 	// earlier rounds is not a measurement of this round), and with no answer at all the side's offset is 0
@@ -397,16 +396,8 @@ func c01Structure(r *ev.Run, id string, sc *c01Scenario, round int, corr int64, 
 			}
 			vals = append(vals, b.Off)
 		}
-		// the combination of several sources is C02's subject and is stated for |v| < 2^62 only; beyond
-		// that the side's offset is determined when all its answers agree (their midpoint is that value)
-		anyHuge, allEq := false, true
-		for _, v := range vals {
-			anyHuge = anyHuge || v <= -lim || v >= lim
-			allEq = allEq && v == vals[0]
-		}
-		if anyHuge && !allEq {
-			return nil, false
-		}
+		// answers anywhere in the int64 range, also more than 2^63 ns apart: the side's offset lies between
+		// the order statistics its fault-tolerant midpoint is taken from (C01 quantifies over the whole range)
 		if len(scripts) > 0 && len(vals) == 0 {
 			vals = []int64{0}
 		}
@@ -415,7 +406,7 @@ func c01Structure(r *ev.Run, id string, sc *c01Scenario, round int, corr int64, 
 	rv, rdet := side(sc.Refs)
 	pv, pdet := side(sc.Peers)
 	if !rdet || !pdet {
-		r.Class("round:bounds-only(answer exactly at the deadline, or offsets beyond 2^62)")
+		r.Class("round:bounds-only(answer exactly at the deadline)")
 		return
 	}
 	if partial {
@@ -652,7 +643,7 @@ func init() {
 				r.Sample(map[string]any{"case": id, "scenario": sc, "first_events": evs})
 			}
 		})
-		r.Assume("correction caps (RefImpact*Drift and PeerImpact*Drift) below 2^63 ns; structure clause for offsets |v| >= 2^62 only in rounds in which all answers of a side agree — how differing offsets of that size are combined is not stated (C02 stops at 2^62)")
+		r.Assume("correction caps (RefImpact*Drift and PeerImpact*Drift) below 2^63 ns; a side's offset is judged to lie between the order statistics its fault-tolerant midpoint is taken from, over the whole int64 range")
 		r.Assume("virtual time of testing/synctest; prometheus registration replaced by a no-op registerer so that Run can be started many times in one process")
 		if r.Only() == "" || r.Only() == "main:c01wiring" {
 			runMainLeg(r, "c01wiring")
